@@ -78,10 +78,29 @@ def run(chk: Check, repo: Repo) -> None:
     # the consumer decodes before its own error handling
     sd = repo.func("xknx.core.group_address_dpt", "GroupAddressDPT.set_decoded_data")
     # transcoder.from_knx(...) is a call through a stored class: resolve to every concrete DPT (checked above)
+    from ..astx import walk_local
+    # the local holding the stored transcoder class (bound from self.get(<address>)) and the local(s) holding a logger method
+    tnames = {(n.target if isinstance(n, ast.NamedExpr) else n.targets[0]).id for n in walk_local(sd.node) if (isinstance(n, ast.NamedExpr) or (isinstance(n, ast.Assign) and len(n.targets) == 1 and isinstance(n.targets[0], ast.Name))) and isinstance(n.value, ast.Call) and call_name(n.value) == "self.get"}
+    lognames = {n.targets[0].id for n in walk_local(sd.node) if isinstance(n, ast.Assign) and len(n.targets) == 1 and isinstance(n.targets[0], ast.Name) and isinstance(n.value, ast.Attribute) and n.value.attr in ("debug", "info", "warning", "error") and "LOGGER" in ast.unparse(n.value.value).upper()}
+    dec_calls = [c for c in calls(sd.node) if isinstance(c.func, ast.Attribute) and c.func.attr == "from_knx" and isinstance(c.func.value, ast.Name) and c.func.value.id in tnames]
+    chk.floor("decode calls through the stored transcoder", len(dec_calls), 1)
+    exc_tab = mr.exc
+    for c in dec_calls:
+        # the per-class analysis above shows each decoder raises at most DECLARED; here: the call is inside a try that catches all of them
+        caught: set[str] = set()
+        for t in walk_local(sd.node):
+            if isinstance(t, ast.Try) and any(x is c for b in t.body for x in ast.walk(b)):
+                for h in t.handlers:
+                    names = [ast.unparse(x).split(".")[-1] for x in (h.type.elts if isinstance(h.type, ast.Tuple) else [h.type])] if h.type is not None else ["BaseException"]
+                    if not any(isinstance(x, ast.Raise) for b in h.body for x in ast.walk(b)):
+                        caught.update(names)
+        missing = [d for d in DECLARED if not any(exc_tab.is_subclass(d, k) for k in caught)]
+        chk.ob("eager-decode-errors-are-handled", sd.site(c), not missing, f"`{ast.unparse(c)[:60]}` runs inside handlers for {sorted(caught)}" + (f" — {missing} (raised by decoders for a payload that cannot be converted) escapes into the telegram consumer, whose loop ends: nothing queued afterwards is processed or marked done" if missing else f", which cover everything a decoder may raise {sorted(DECLARED)}"), key="consumer-decode-handled")
+
     def cb(fi, c):
-        if fi.qualname == "GroupAddressDPT.set_decoded_data" and call_name(c) == "transcoder.from_knx":
-            return []  # analysed per class above: escapes are subsets of the caught (CouldNotParseTelegram, ConversionError)
-        if fi.qualname == "GroupAddressDPT.set_decoded_data" and call_name(c) in ("_logger_fn", "transcoder.dpt_name"):
+        if fi.qualname == "GroupAddressDPT.set_decoded_data" and isinstance(c.func, ast.Attribute) and isinstance(c.func.value, ast.Name) and c.func.value.id in tnames and c.func.attr in ("from_knx", "dpt_name"):
+            return []  # from_knx: analysed per class above, and handled (obligation above); dpt_name: a classmethod returning text
+        if fi.qualname == "GroupAddressDPT.set_decoded_data" and isinstance(c.func, ast.Name) and c.func.id in lognames:
             return []
         return None
     mr2 = engine(repo, callback_targets=cb)
